@@ -67,7 +67,9 @@ def st_case():
         if what == 'combination':
             k = draw(st.integers(1, 3))
             roles = {'u': (POK, draw(st.booleans())), 'v': (POK, draw(st.booleans())),
-                     'a': (KWO, draw(st.booleans())), 'b': (KWO, draw(st.booleans())), 'c': (KWO, True)}
+                     'a': (KWO, draw(st.booleans())), 'b': (KWO, draw(st.booleans())), 'c': (KWO, True), 'self': (KWO, True)}
+            # (a combined function may well have a parameter called self)
+            third = draw(st.sampled_from(['c', 'c', 'self']))
             firsts = draw(st.sampled_from([['arg'] * 3, ['value'] * 3, ['arg', 'value', 'item'], ['value', 'value', 'arg']]))
             funcs = []
             for i in range(k):
@@ -81,7 +83,7 @@ def st_case():
                 star = draw(st.sampled_from(['', '', 'args']))
                 if star:
                     spec.append(['args', VP, None])
-                for nm in ('a', 'b', 'c'):
+                for nm in ('a', 'b', third):
                     if draw(st.booleans()):
                         spec.append([nm, KWO, '1' if roles[nm][1] else None])
                 if draw(st.integers(0, 3)) == 0:
